@@ -271,8 +271,9 @@ def run_case(col, case):
             spec += f".{va}{'' if ph is None else ph}"
         style_spec = {"block": "", "kitty-lines": "+L", "kitty-whole": "+W", "iterm2-whole": "+W",
                       "iterm2-lines": "+L", "iterm2-whole-konsole": "+W"}[case["kind"]]
-        ew = pw if pw else term[0]
-        eh = ph if ph else max(term[1] - 2, 1)
+        # an omitted width / height is 0 / -2, an explicit 0 ("0", "00") is relative to the terminal dimension
+        ew = int(pw) if pw and int(pw) else term[0]
+        eh = max(term[1] - 2, 1) if ph is None else (int(ph) if int(ph) else term[1])
         W, H = max(ew, w), max(eh, h)
         left, top, right, bottom = ref_offsets(w, h, W, H, {"<": 0, "|": 1, "": 1, ">": 2}[ha],
                                                {"^": 0, "-": 1, "": 1, "_": 2}[va])
@@ -361,7 +362,7 @@ def run_case_f(col, case):
         col.violation(dict(sig, clause=clause), what, case)
 
     if via in ("draw", "draw-animated"):
-        frames = 2 if via == "draw-animated" else 1
+        frames = 3 if via == "draw-animated" else 1     # from the 3rd frame on the cursor starts past the 2nd
         c = dict(api="new", cls="TextR", mode=case["kind"], frames=frames, loops=1, cache=False, size=(w, h),
                  pad=("aligned", pw, ph, ha, va, fill), padcls=padcls, term=term, row0=0, isatty=True,
                  allow_scroll=True)
@@ -571,7 +572,7 @@ def build_cases(tier):
                             cases.append(dict(part="B", kind=kind, size=size, fill=fill, term=term, tight=True,
                                               pad="exact", args=e, via=via, frames=frames))
     widths = [None, 0, 1, 2, 4, 6]
-    heights = [None, 1, 2, 4, 5]
+    heights = [None, 0, "00", 1, 2, 4, 5]
     for kind in kinds[2:]:
         for size in sizes:
             for term in terms:
@@ -580,6 +581,8 @@ def build_cases(tier):
                         for pw in widths:
                             for ph in heights:
                                 if pw is not None and pw > term[0]:
+                                    continue
+                                if ph == "00" and not (va == "_" and pw in (None, 4)):
                                     continue
                                 if ph is None and not va:
                                     if quick and pw not in (None, 4):
